@@ -1,0 +1,436 @@
+//go:build verif
+
+package sqlx
+
+import (
+	"context"
+	"database/sql"
+	"database/sql/driver"
+	"encoding/json"
+	"errors"
+	"fmt"
+	"reflect"
+	"strconv"
+	"testing"
+
+	"github.com/DATA-DOG/go-sqlmock"
+	"github.com/gotid/god/internal/verifdrv"
+	"github.com/gotid/god/lib/breaker"
+	"github.com/gotid/god/lib/logx"
+)
+
+// ---------------------------------------------------------------- transactions
+
+// verifRec is a recording SQL driver: every Begin/Exec/Commit/Rollback reaching it is
+// logged together with whether it was answered with an error (scripted faults).
+type verifRec struct {
+	calls                   []string
+	begin, commit, rollback bool   // fail?
+	execFail                []bool // per statement
+	nexec                   int
+}
+
+var (
+	errVerifBegin    = errors.New("E:begin")
+	errVerifCommit   = errors.New("E:commit")
+	errVerifRollback = errors.New("E:rollback")
+)
+
+type verifExecErr struct{ i int }
+
+func (e *verifExecErr) Error() string { return "E:exec:" + strconv.Itoa(e.i) }
+
+type verifBodyErr struct{ n int }
+
+func (e *verifBodyErr) Error() string { return "E:body:" + strconv.Itoa(e.n) }
+
+func (r *verifRec) log(what string, failed bool) {
+	if failed {
+		r.calls = append(r.calls, what+":fail")
+	} else {
+		r.calls = append(r.calls, what+":ok")
+	}
+}
+
+type verifConnector struct{ r *verifRec }
+
+func (c verifConnector) Connect(context.Context) (driver.Conn, error) { return verifConn{c.r}, nil }
+func (c verifConnector) Driver() driver.Driver                        { return verifDriver{} }
+
+type verifDriver struct{}
+
+func (verifDriver) Open(string) (driver.Conn, error) { return nil, errors.New("verif: use the connector") }
+
+type verifConn struct{ r *verifRec }
+
+func (c verifConn) Prepare(string) (driver.Stmt, error) { return nil, errors.New("verif: no prepare") }
+func (c verifConn) Close() error                        { return nil }
+func (c verifConn) Begin() (driver.Tx, error) {
+	c.r.log("begin", c.r.begin)
+	if c.r.begin {
+		return nil, errVerifBegin
+	}
+	return verifTx{c.r}, nil
+}
+
+func (c verifConn) ExecContext(_ context.Context, _ string, _ []driver.NamedValue) (driver.Result, error) {
+	i := c.r.nexec
+	c.r.nexec++
+	failed := i < len(c.r.execFail) && c.r.execFail[i]
+	c.r.log("exec:"+strconv.Itoa(i), failed)
+	if failed {
+		return nil, &verifExecErr{i}
+	}
+	return driver.RowsAffected(1), nil
+}
+
+type verifTx struct{ r *verifRec }
+
+func (t verifTx) Commit() error {
+	t.r.log("commit", t.r.commit)
+	if t.r.commit {
+		return errVerifCommit
+	}
+	return nil
+}
+
+func (t verifTx) Rollback() error {
+	t.r.log("rollback", t.r.rollback)
+	if t.r.rollback {
+		return errVerifRollback
+	}
+	return nil
+}
+
+type verifStmt struct {
+	Fail  bool   `json:"fail"`
+	React string `json:"react"` // return | ignore | panic
+	P     int    `json:"p"`
+}
+
+type verifFinal struct {
+	K string `json:"k"` // nil | err | panic
+	N int    `json:"n"`
+}
+
+type verifCase struct {
+	T string `json:"t"` // tx | orm
+	// tx
+	Begin    bool        `json:"begin"`
+	Commit   bool        `json:"commit"`
+	Rollback bool        `json:"rollback"`
+	Stmts    []verifStmt `json:"stmts"`
+	Final    verifFinal  `json:"final"`
+	API      string      `json:"api"` // transact | transactctx
+	// orm
+	Mode   string      `json:"mode"` // row | rows
+	Strict bool        `json:"strict"`
+	Shape  verifShape  `json:"shape"`
+	Cols   []string    `json:"cols"`
+	Rows   [][]any     `json:"rows"`
+}
+
+// verifErr describes an error without interpreting it: identity with one of the sentinels,
+// message, and the same for what it wraps.
+func verifErr(err error) any {
+	if err == nil {
+		return nil
+	}
+	out := map[string]any{"is": verifSentinel(err), "msg": err.Error()}
+	if u := errors.Unwrap(err); u != nil {
+		out["unwrap"] = verifSentinel(u)
+	}
+	return out
+}
+
+func verifSentinel(err error) string {
+	switch e := err.(type) {
+	case *verifExecErr:
+		return "exec:" + strconv.Itoa(e.i)
+	case *verifBodyErr:
+		return "body:" + strconv.Itoa(e.n)
+	}
+	switch err {
+	case errVerifBegin:
+		return "begin"
+	case errVerifCommit:
+		return "commit"
+	case errVerifRollback:
+		return "rollback"
+	case breaker.ErrServiceUnavailable:
+		return "unavailable"
+	case sql.ErrNoRows:
+		return "notfound"
+	case ErrNotMatchDestination:
+		return "notmatch"
+	case ErrUnsupportedValueType:
+		return "unsupported"
+	case ErrNotSettable:
+		return "notsettable"
+	case ErrNotReadableValue:
+		return "notreadable"
+	}
+	return ""
+}
+
+func verifTxCase(c verifCase) any {
+	rec := &verifRec{begin: c.Begin, commit: c.Commit, rollback: c.Rollback}
+	for _, s := range c.Stmts {
+		rec.execFail = append(rec.execFail, s.Fail)
+	}
+	db := sql.OpenDB(verifConnector{rec})
+	defer db.Close()
+	conn := NewConnFromDB(db)
+
+	body := func(s Session) error {
+		for i, st := range c.Stmts {
+			_, err := s.Exec("update t set x = " + strconv.Itoa(i))
+			if err != nil {
+				switch st.React {
+				case "return":
+					return err
+				case "panic":
+					panic("P:" + strconv.Itoa(st.P))
+				}
+			}
+		}
+		switch c.Final.K {
+		case "err":
+			return &verifBodyErr{c.Final.N}
+		case "panic":
+			panic("P:" + strconv.Itoa(c.Final.N))
+		}
+		return nil
+	}
+
+	var err error
+	escaped, pval := verifdrv.Catch(func() {
+		if c.API == "transactctx" {
+			err = conn.TransactCtx(context.Background(), func(_ context.Context, s Session) error { return body(s) })
+		} else {
+			err = conn.Transact(body)
+		}
+	})
+	out := map[string]any{"err": verifErr(err), "calls": rec.calls, "escaped": nil}
+	if rec.calls == nil {
+		out["calls"] = []string{}
+	}
+	if escaped {
+		out["escaped"] = pval
+	}
+	return out
+}
+
+// ---------------------------------------------------------------- rows -> destination
+
+type verifField struct {
+	Tag string        `json:"tag"` // raw value of the db tag, "" = none
+	Ptr bool          `json:"ptr"`
+	K   string        `json:"k"`   // int | str | nint | opaque
+	Emb *[]verifField `json:"emb"` // embedded struct
+}
+
+type verifElem struct {
+	K     string        `json:"k"` // int | str (primitive element)
+	Fs    *[]verifField `json:"fs"`
+	Other bool          `json:"other"`
+}
+
+type verifShape struct {
+	D   string    `json:"d"` // elem | slice
+	Ptr bool      `json:"ptr"`
+	E   verifElem `json:"e"`
+}
+
+type verifOpaque struct{ X int64 }
+
+func verifLeafType(k string) reflect.Type {
+	switch k {
+	case "int":
+		return reflect.TypeOf(int64(0))
+	case "str":
+		return reflect.TypeOf("")
+	case "nint":
+		return reflect.TypeOf(sql.NullInt64{})
+	default:
+		return reflect.TypeOf(verifOpaque{})
+	}
+}
+
+func verifStructType(fs []verifField, ctr *int) reflect.Type {
+	var sf []reflect.StructField
+	for _, f := range fs {
+		*ctr++
+		var t reflect.Type
+		anon := false
+		if f.Emb != nil {
+			t = verifStructType(*f.Emb, ctr)
+			anon = true
+		} else {
+			t = verifLeafType(f.K)
+		}
+		if f.Ptr {
+			t = reflect.PointerTo(t)
+		}
+		field := reflect.StructField{Name: "F" + strconv.Itoa(*ctr), Type: t, Anonymous: anon}
+		if f.Tag != "" {
+			field.Tag = reflect.StructTag(`db:"` + f.Tag + `"`)
+		}
+		sf = append(sf, field)
+	}
+	return reflect.StructOf(sf)
+}
+
+func verifElemType(e verifElem) reflect.Type {
+	switch {
+	case e.Fs != nil:
+		ctr := 0
+		return verifStructType(*e.Fs, &ctr)
+	case e.Other:
+		return reflect.TypeOf(map[string]int64{})
+	default:
+		return verifLeafType(e.K)
+	}
+}
+
+func verifDumpLeaf(k string, v reflect.Value) any {
+	switch k {
+	case "int":
+		return map[string]any{"i": v.Int()}
+	case "str":
+		return map[string]any{"s": v.String()}
+	case "nint":
+		n := v.Interface().(sql.NullInt64)
+		return map[string]any{"n": []any{n.Valid, n.Int64}}
+	default:
+		return map[string]any{"o": v.Interface().(verifOpaque).X}
+	}
+}
+
+// verifDumpStruct lists the flattened fields in order; nil for a field behind a nil pointer.
+func verifDumpStruct(fs []verifField, v reflect.Value, valid bool, out *[]any) {
+	for i, f := range fs {
+		var fv reflect.Value
+		ok := valid
+		if valid {
+			fv = v.Field(i)
+			if f.Ptr {
+				if fv.IsNil() {
+					ok = false
+				} else {
+					fv = fv.Elem()
+				}
+			}
+		}
+		switch {
+		case f.Emb != nil:
+			verifDumpStruct(*f.Emb, fv, ok, out)
+		case !ok:
+			*out = append(*out, nil)
+		default:
+			*out = append(*out, verifDumpLeaf(f.K, fv))
+		}
+	}
+}
+
+func verifDumpElem(e verifElem, v reflect.Value) []any {
+	out := []any{}
+	switch {
+	case e.Fs != nil:
+		verifDumpStruct(*e.Fs, v, true, &out)
+	case e.Other:
+	default:
+		out = append(out, verifDumpLeaf(e.K, v))
+	}
+	return out
+}
+
+func verifOrmCase(c verifCase) any {
+	et := verifElemType(c.Shape.E)
+	var dest reflect.Value // pointer handed to the query method
+	if c.Shape.D == "slice" {
+		if c.Shape.Ptr {
+			dest = reflect.New(reflect.SliceOf(reflect.PointerTo(et)))
+		} else {
+			dest = reflect.New(reflect.SliceOf(et))
+		}
+	} else {
+		dest = reflect.New(et)
+	}
+
+	db, mock, err := sqlmock.New()
+	if err != nil {
+		return map[string]any{"error": err.Error()}
+	}
+	defer db.Close()
+	rows := sqlmock.NewRows(c.Cols)
+	for _, r := range c.Rows {
+		vals := make([]driver.Value, len(r))
+		for i, x := range r {
+			switch t := x.(type) {
+			case nil:
+				vals[i] = nil
+			case float64:
+				vals[i] = int64(t)
+			case string:
+				vals[i] = t
+			}
+		}
+		rows.AddRow(vals...)
+	}
+	mock.ExpectQuery("select").WillReturnRows(rows)
+	conn := NewConnFromDB(db)
+
+	var qerr error
+	panicked, pval := verifdrv.Catch(func() {
+		switch {
+		case c.Mode == "row" && c.Strict:
+			qerr = conn.QueryRow(dest.Interface(), "select 1")
+		case c.Mode == "row":
+			qerr = conn.QueryRowPartial(dest.Interface(), "select 1")
+		case c.Strict:
+			qerr = conn.QueryRows(dest.Interface(), "select 1")
+		default:
+			qerr = conn.QueryRowsPartial(dest.Interface(), "select 1")
+		}
+	})
+
+	out := map[string]any{"err": verifErr(qerr), "panic": nil}
+	if panicked {
+		out["panic"] = pval
+	}
+	dump := [][]any{}
+	if c.Shape.D == "slice" {
+		sl := dest.Elem()
+		for i := 0; i < sl.Len(); i++ {
+			ev := sl.Index(i)
+			if c.Shape.Ptr {
+				ev = ev.Elem()
+			}
+			dump = append(dump, verifDumpElem(c.Shape.E, ev))
+		}
+	} else {
+		dump = append(dump, verifDumpElem(c.Shape.E, dest.Elem()))
+	}
+	out["dest"] = dump
+	return out
+}
+
+// TestVerifDriver interprets transaction scripts against a recording SQL driver and
+// query scripts (generated destination shapes x result sets) against sqlmock.
+func TestVerifDriver(t *testing.T) {
+	logx.Disable()
+	verifdrv.Run(t, func(raw json.RawMessage) any {
+		var c verifCase
+		if err := json.Unmarshal(raw, &c); err != nil {
+			return map[string]any{"error": err.Error()}
+		}
+		switch c.T {
+		case "tx":
+			return verifTxCase(c)
+		case "orm":
+			return verifOrmCase(c)
+		}
+		return map[string]any{"error": fmt.Sprintf("unknown case type %q", c.T)}
+	})
+}
